@@ -48,3 +48,9 @@ add("C17", "model_checking",
     "Every history of <=3 bulks over an ID universe of 4 documents (each bulk any ordered subset of <=3 distinct IDs, so whole-bulk repeats, partial overlaps, the same earlier document several times and repeats interleaved with new data are all present) is ingested through the real appendWorker path; listing, totals, histogram, count/sum aggregations, the fraction's document count and fetch must equal the deduplicated reference on the active fraction, after sealing and after reopening from files; the variant with the first bulk in an earlier sealed fraction checks listing-once and fetch across fractions. The concurrent-repeat part of the quantifier is explored by the C07 scheduler harness.",
     "Trusted: refdb with set semantics. Quick restricts the third bulk to <=2 IDs; thorough lifts it.",
     "DESIGN.md §3 C17", "E3-smallscope")
+
+add("C01", "fault_enumeration",
+    "exhaustive crash-state enumeration of the write path's file-operation journal (every prefix, every torn byte length, lost unsynced tails), multi-stage BFS crash -> recover -> ingest -> crash, recovery by the real loader in child processes",
+    "The storage packages are rebuilt against an os shim that journals every mutating file operation and elides fsync. For stage plans of 2 and 3 restarts, every state a crash can leave (Model A: each journal prefix with every torn length of the in-flight docs/meta write; Model B: plus every cut of un-synced tails), de-duplicated by a canonical directory hash, is materialised and recovered by the real FracManager.Load in a child process; every document of every bulk is then fetched byte-for-byte and searched by each token (acked => present; unacked => wholly present or absent; never other bytes), more bulks are ingested and the next stage's crash states are explored from there. A subset of states is validated against a child that really dies at that journal position. Found and repaired: replay position drift after an orphan docs block, torn meta tail, lone empty .docs file.",
+    "Trusted: the persistence model (data durable once followed by a sync of that file; namespace operations atomic, ordered, durable — a missing directory fsync is outside the model). Bulks are small (1-3 documents), histories have <=3 restarts.",
+    "DESIGN.md §3 C01", "E2-vos")
